@@ -23,9 +23,9 @@ type c11Arg struct {
 }
 
 type c11Res struct {
-	Calls  int64               `json:"calls"`
-	Replies map[string]int64   `json:"replies"`
-	Viols  []*report.Violation `json:"viols"`
+	Calls   int64               `json:"calls"`
+	Replies map[string]int64    `json:"replies"`
+	Viols   []*report.Violation `json:"viols"`
 }
 
 func c11Setup(state string) (uint64, []fsx.Op) {
@@ -68,8 +68,8 @@ const c11MaxWrite = 4096*511 - 10*4096
 
 // c11Calls enumerates the full product of the argument domains of one procedure for a fixed first handle.
 func c11Calls(proc string, h []byte, hs [][]byte) []struct {
-	Op     fsx.Op
-	H, H2  []byte
+	Op    fsx.Op
+	H, H2 []byte
 } {
 	type call = struct {
 		Op    fsx.Op
@@ -262,7 +262,9 @@ func c11Job(raw json.RawMessage) (interface{}, error) {
 
 func c11ValidArgs(w *World) map[uint32]xdr.Xdrable {
 	fh := func(v string) nfstypes.Nfs_fh3 { h, _ := w.Vars.Resolve(v); return nfstypes.Nfs_fh3{Data: h} }
-	dop := func(d, n string) nfstypes.Diropargs3 { return nfstypes.Diropargs3{Dir: fh(d), Name: nfstypes.Filename3(n)} }
+	dop := func(d, n string) nfstypes.Diropargs3 {
+		return nfstypes.Diropargs3{Dir: fh(d), Name: nfstypes.Filename3(n)}
+	}
 	return map[uint32]xdr.Xdrable{
 		nfstypes.NFSPROC3_GETATTR:     &nfstypes.GETATTR3args{Object: fh("root/a")},
 		nfstypes.NFSPROC3_SETATTR:     &nfstypes.SETATTR3args{Object: fh("root/a"), New_attributes: nfstypes.Sattr3{Size: nfstypes.Set_size3{Set_it: true, Size: 100}, Mtime: nfstypes.Set_mtime{Set_it: nfstypes.SET_TO_CLIENT_TIME}}},
